@@ -84,7 +84,8 @@ pub fn checks() -> Vec<Check> {
             st("c02.s1", c02::s1, (0, 0), 3, "C01-S1 programs (255 residues x 6 prototypes x 3 point counts) judged by the independent validator/decoder"),
             st("c02.s2", c02::s2, (0, 0), 3, "all programs of depth <=3/4 over the 30-op alphabet x 3 finalize modes (plain, identity transformer, transformer appending a foreign element)"),
             st("c02.s4", c02::s4, (0, 0), 3, "C01-S4 programs (hooked capacity x point counts x every catalogue type)"),
-            st("c02.ext", c02::ext, (0, 0), 3, "all sequences of <=3 extension registration attempts over 2 prefixes x 2 URLs (a prefix can be registered once), then a cloud with an extension attribute"),
+            st("c02.meta", c02::meta, (0, 0), 3, "1905 metadata-rich files (every catalogue string incl. non-ASCII and astral characters in every string field, 5 image kinds rotating)"),
+            st("c02.ext", c02::ext, (0, 0), 3, "all sequences of <=3 extension registration attempts over 2 prefixes x {2 URLs, empty URL} (a prefix can be registered once, never with an empty URL), then a cloud with an extension attribute"),
             st("c02.blobs", c02::blobs, (0, 0), 3, "blob + cylindrical image payload length 0..=1023 x 17 start residues"),
         ],
         extra: None,
@@ -102,6 +103,7 @@ pub fn checks() -> Vec<Check> {
         stages: vec![
             st("c03.layout", c03::layout, (2, 3), 3, "10 scenes x all layouts with <=2 (quick) / <=3 (thorough) deviations over packets, cuts, index/ignored packets, data/index offsets, section order, gaps {4,1000,1016}, omitted default attributes, XML lexical forms"),
             st("c03.gaps", c03::gaps, (1, 2), 3, "10 scenes x every gap 4..1020 before every section and before the XML (all 255 aligned start residues); thorough: all pairs"),
+            st("c03.tail", c03::tail, (1, 2), 3, "XML section directly behind the header, binary sections last: 10 scenes x every gap 4..1020 before every section (the last packet ends anywhere relative to the end of the file, incl. exactly at it); thorough: all pairs"),
             st("c03.cuts", c03::cuts, (2, 2), 3, "10 scenes encoded with 2 (thorough 3) data packets per cloud x every byte cut of every record stream, all pairs of cuts, x index/ignored packets"),
             st("c03.maxpacket", c03::maxpacket, (1, 1), 3, "one 8-bit record, first data packet of 65520/65524/65528 stream bytes (packet length up to 65536, the maximum of the length field) x 3 tail sizes x gaps {4,1000,1016}"),
             st("c03.xml", c03::xml, (3, 4), 3, "10 scenes x all combinations of <=3 (thorough <=4) XML lexical / omitted-attribute deviations"),
@@ -120,6 +122,7 @@ pub fn checks() -> Vec<Check> {
         level: "model_checking",
         stages: vec![
             st("c04.lattice", c04::lattice, (2, 3), 3, "presence lattice of 34 optional fields (root, cloud, image): all subsets within <=2/3 toggles of all-absent and of all-present x 5 image kinds x 3 finalize modes"),
+            st("c04.types", c04::types, (0, 0), 3, "every catalogue data type (floats with none / both / one-sided limits, ~190 integer and scaled-integer ranges) as coordinate, intensity, colour, time stamp and extension record: prototype read back unchanged"),
             st("c04.strings", c04::strings, (0, 0), 3, "every catalogue string (all strings of length <=3 over 12 XML-critical characters + 20 long ones) in every string field, rotated per field"),
             st("c04.floats", c04::floats, (0, 0), 3, "every float of the mini-float lattice + specials (NaN, inf, subnormals, extremes) in every float field x 3 projection kinds"),
         ],
@@ -153,8 +156,8 @@ pub fn checks() -> Vec<Check> {
         id: "C06",
         level: "model_checking",
         stages: vec![
-            st("c06.product", c06::product, (0, 0), 3, "full product: blob length 0..=1023 x all 255 aligned start residues"),
-            st("c06.long", c06::long, (0, 0), 3, "multi-page lengths 1020k+d (k=1..3, d=-20..20), 2^k-1, 2^k, 2^k+1 for k=12..17 and 20, 200000 x 16 residues x 3 fill patterns"),
+            st("c06.product", c06::product, (0, 0), 3, "full product: blob length 0..=1023 x all 255 aligned start residues; payload source delivering in full / in halves / alternating (rotated)"),
+            st("c06.long", c06::long, (0, 0), 3, "multi-page lengths 1020k+d (k=1..3, d=-20..20), 2^k-1, 2^k, 2^k+1 for k=12..17 and 20, 200000 x 16 residues x 3 fill patterns x 3 source read modes"),
             st("c06.neighbours", c06::neighbours, (0, 0), 3, "all programs of depth <=3 over blobs, every image kind with/without mask, cloud; unique payload patterns"),
             st("c06.tamper", c06::tamper, (0, 0), 3, "crafted descriptors (length -1,+1,+3,+4,+16,+17,+5000,2^63,2^64-1) x section-length patches x 51 residues x 7 lengths"),
         ],
@@ -210,8 +213,8 @@ pub fn checks() -> Vec<Check> {
         id: "C10",
         level: "model_checking",
         stages: vec![
-            st("c10.protos_short", c10::protos_short, (0, 0), 3, "all prototypes of length <=2 over 25 names x 14 types"),
-            st("c10.protos_base", c10::protos_base, (0, 0), 3, "valid base (XYZ f32 | spherical f64) + <=2 extra records over 25 names x 14 types"),
+            st("c10.protos_short", c10::protos_short, (0, 0), 3, "all prototypes of length <=2 over 25 names x 16 types"),
+            st("c10.protos_base", c10::protos_base, (0, 0), 3, "valid base (XYZ f32 | spherical f64) + <=2 extra records over 25 names x 16 types"),
             st("c10.protos_mutated", c10::protos_mutated, (0, 0), 3, "catalogue prototypes with one record deleted / duplicated / retyped"),
             st("c10.protos_groups", c10::protos_groups, (0, 0), 3, "all name sequences of length 1..4 over the 9 coordinate/colour component names (every combination of missing and repeated group members)"),
             Stage { timeout_s: 30, ..st("c10.protos_wide", c10::protos_wide, (0, 0), 3, "XYZ + k extension records (64-bit / 1-bit / zero-width) for every k in 5880..5930, 20790..20830, 21650..21700, 60..64 x {1,3} points: every call returns, success implies read-back") },
@@ -308,7 +311,7 @@ pub fn checks() -> Vec<Check> {
         id: "C17",
         level: "model_checking",
         stages: vec![
-            st("c17.histories", c17::histories, (0, 0), 3, "6 file variants (intact; payload / blob / checksum damage; destroyed section id and packet header) x all read-op histories of depth 3 (thorough 4) on one reader"),
+            st("c17.histories", c17::histories, (0, 0), 3, "7 file variants (intact; payload / blob / checksum damage; destroyed section id and packet header; illegal invalid-state value in the middle of a cloud) x all read-op histories of depth 3 (thorough 4) on one reader"),
             st("c17.faults", c17::faults, (0, 0), 3, "2 file variants x warm-up op x faulted op x one-shot device error at every device operation of the faulted op x every following op on the healthy device"),
             Stage { timeout_s: 60, ..st("c17.far", c17::far, (0, 0), 3, "306-page file (cloud of 26000 points, image blob, second cloud) x 17 damaged-page choices (12 pages behind the big cloud, 4 inside it, none) x all ordered pairs of read operations on one reader vs fresh-reader results") },
             st("c17.pairs", c17::pairs, (0, 0), 3, "page reader on a 300-page image x every damaged page q (payload / checksum bit) x every other page a: read a, read q (must fail), read a, on one reader"),
@@ -338,7 +341,7 @@ pub fn checks() -> Vec<Check> {
         level: "model_checking",
         stages: vec![
             st("c19.layouts", c19::layouts, (1, 2), 3, "11 scenes encoded by e57spec under every layout with <=1 (thorough <=2) deviations: copy, compare as read, copy the copy (byte-identical), write twice (byte-identical)"),
-            st("c19.programs", c19::programs, (0, 0), 3, "outputs of all writer programs of depth <=2 (thorough <=3) and 250 metadata-rich files (catalogue strings in every field x 5 image kinds)"),
+            st("c19.programs", c19::programs, (0, 0), 3, "outputs of all writer programs of depth <=2 (thorough <=3) and 1905 metadata-rich files (every catalogue string in every string field, 5 image kinds rotating)"),
             st("c19.align", c19::align, (0, 0), 3, "first cloud of 0..344 byte-sized points moves the second cloud's section of the copy through all 255 aligned residues of the page payload"),
             st("c19.bundled", c19::bundled, (0, 0), 3, "every bundled /repo/testdata/*.e57 that opens and whose prototypes follow the writer's documented rules"),
             Stage { twice: true, ..st("c19.determinism", c19::determinism, (0, 0), 3, "all writer programs of depth <=2 executed in two separate sets of worker processes: per-case file bytes must be identical") },
